@@ -74,6 +74,11 @@ class C09(Prop):
         if s.env is None:
             return r
         steps = [o for o in s.obs if o["op"][0] != "reset"]
+        if any(o.get("nlv") is not None and 0 < abs(o["nlv"]) < Fraction(1, 10**6) for o in s.obs):
+            # NLV within rounding distance of zero: which side of the `<= 0` test the doubles land on is not
+            # decided by the logic (exactly-zero NLV is covered by the dyadic corpus case)
+            r.skipped = "NLV within rounding distance of zero"
+            return r
         ended = False
         prev_nlv = s.obs[0].get("nlv")
         for i, o in enumerate(steps):
